@@ -21,6 +21,10 @@ SHIFTS = [1.0, -1.0, 37.5, -37.5, 1000.0, -1000.0]
 
 def main():
     ck = core.Check("C10", "model_checking")
+    if ck.args.replay:
+        from vlib import sysrun as _sr
+
+        _sr.replay(ck, "C10", ck.args.replay)
     core.import_repo()
     factors = list(itertools.product(["tpcn", "rwm"], ["mult", "syst"], [True, False], [None, 0.5]))
     import random
